@@ -57,7 +57,14 @@ fn for_instances(cx: &Cx, rep: &mut Report, run: &RoleRun, n: usize, mut f: impl
     let mut count = 0;
     rep.unanalysable(&run.label(), &run.unsupported);
     for p in &run.paths {
-        if shape_path(&p.cond) { continue; }
+        if shape_path(&p.cond) {
+            // the builder's output depends on a collection being empty: a shape the two-element analysis of this rule does
+            // not look at (none exists on the reference tree), so nothing can be said about it - fail closed, naming it
+            if matches!(p.outcome, Outcome::Ok(_)) {
+                rep.fail("ES-shape-coverage", &run.label(), &format!("empty:{}", empties(&p.cond).join(",")), &format!("the generated code is special-cased for an empty collection ({}); this rule analyses the two-element shape only and cannot vouch for that case", empties(&p.cond).join(", ")), &run.site(), json!({"path": cond_str(&p.cond)}));
+            }
+            continue;
+        }
         if let Outcome::Ok(v) = &p.outcome {
             let inst = cache.get_sized(v, n, &[], &sizes(&p.cond));
             match &*inst {
